@@ -77,12 +77,18 @@ func (r *verifPingResult) Read(ctx context.Context, p thrift.TProtocol) error {
 }
 
 type verifPingHandler struct {
+	lastCtx FContext
+	onCall  func(FContext)
 	calls   int
 	args    []string
 	outcome func(a string) (string, error)
 }
 
 func (h *verifPingHandler) Ping(ctx FContext, a string) (string, error) {
+	h.lastCtx = ctx
+	if h.onCall != nil {
+		h.onCall(ctx)
+	}
 	h.calls++
 	h.args = append(h.args, a)
 	return h.outcome(a)
@@ -250,6 +256,7 @@ func (r *verifPingResultI32) Write(ctx context.Context, p thrift.TProtocol) erro
 func (r *verifPingResultI32) Read(ctx context.Context, p thrift.TProtocol) error { return nil }
 
 type verifReply struct {
+	headers map[string]string
 	opid    string
 	cid     string
 	name    string
@@ -274,7 +281,9 @@ func verifParseReply(frame []byte) (verifReply, []byte, bool) {
 	if !ok {
 		return r, nil, false
 	}
+	r.headers = map[string]string{}
 	for i := range names {
+		r.headers[names[i]] = values[i]
 		if names[i] == opIDHeader {
 			r.opid = values[i]
 		}
